@@ -48,6 +48,9 @@ class Partial:
         """
         if self._synthetic_partial is None:
             self._original_expression._reset_evaluation_cache()
+            # We evaluate the original expression so that a late partial raises the same
+            # DomainErrors and CoordinateMissing errors as an early partial does.
+            self._original_expression._evaluate(point)
             return self._original_expression._numeric_partial(self._variable_name, point)
         else:
             # We evaluate the original expression to check for DomainErrors.
